@@ -167,7 +167,7 @@ class Gen:
              "ic": self.r.choice(INERTIAS)}
         return d, q, u, budget
 
-    def config(self, spec, dyn, budget):
+    def config(self, spec, dyn, budget, branched=False):
         """spec: list of (parent, type, rev, fcls, mcls); budget: powers of 5 allowed on every root path"""
         desc, qs, us, left, q2s, u2s = [], [], [], {0: budget}, [], []
         left2 = {0: 2}
@@ -205,19 +205,42 @@ class Gen:
         # constraints whose errors are polynomial in the kinematics; bodies may be Ground (0); some are switched off
         UAX = [([1, 0, 0], 0), ([0, 1, 0], 0), ([0, 0, 1], 0), ([3, 4, 0], 1), ([0, -3, 4], 1)]
         cons = []
-        if self.r.random() < 0.6:
+        if branched or self.r.random() < 0.6:
             mobile = [i for i, d in enumerate(desc, 1) if NU[d["type"]] > 0]
-            for _ in range(self.r.randint(1, 3)):
-                t = self.r.choice(["pip", "pip", "cang", "cspeed", "rod", "rod", "cori"])
+            def root(b):
+                while b and desc[b - 1]["parent"]:
+                    b = desc[b - 1]["parent"]
+                return b
+            for _ in range(self.r.randint(1, 2 if branched else 3)):
+                t = self.r.choice(["pip", "pip", "cang", "cspeed", "rod", "rod", "cori", "ball", "ball"])
+                if branched:
+                    t = self.r.choice(["ball", "ball", "pip", "rod", "cang"])
                 b1, b2 = self.r.randint(0, nb), self.r.randint(1, nb)
+                if branched:       # two bodies on different branches: neither is the other's ancestor
+                    pairs = [(a, b) for a in range(1, nb + 1) for b in range(1, nb + 1) if root(a) != root(b)]
+                    if pairs:
+                        b1, b2 = self.r.choice(pairs)
                 if t != "cspeed" and b1 == b2:
                     continue
-                on = int(self.r.random() < 0.8)
+                on = int(branched or self.r.random() < 0.8)
                 if t == "pip":
                     ax, e = self.r.choice(UAX)
                     cons.append({"type": "pip", "b1": b1, "b2": b2, "n": {"n": ax, "e": e}, "h": self.r.randint(-2, 2), "st": vec(), "on": on})
                 elif t == "rod":
                     cons.append({"type": "rod", "b1": b1, "b2": b2, "st": vec(), "st2": vec(), "d": self.r.randint(1, 3), "on": on})
+                elif t == "ball":
+                    # Ball(b1 station, b2 station): three equations expressed in the Ancestor frame (outmost common ancestor of b1, b2)
+                    def chain(b):
+                        out = [b]
+                        while b:
+                            b = desc[b - 1]["parent"]
+                            out.append(b)
+                        return out
+                    c1, c2 = chain(b1), chain(b2)
+                    anc = next(x for x in c1 if x in c2)
+                    grp, st1, st2 = len(cons), vec(), vec()
+                    for part in range(3):
+                        cons.append({"type": "ballc", "b1": b1, "b2": b2, "st": st1, "st2": st2, "anc": anc, "on": on, "grp": grp, "part": part})
                 elif t == "cori":
                     # ConstantOrientation(base b1 with frame RB, follower b2 with frame RF): three "constant angle 90 degrees" equations
                     #   RFx . RBy = 0, RFy . RBz = 0, RFz . RBx = 0 -- in the spec three cang entries sharing one library constraint
@@ -272,8 +295,14 @@ class Gen:
             e2 = json.loads(json.dumps(e))
             if self.r.random() < 0.3:
                 e2["on"] = 1 - e2["on"]
-            if e["type"] == "gravity" and self.r.random() < 0.6:
-                e2["g"] = vec(); e2["ex"] = [int(self.r.random() < 0.3) for _ in desc]
+            if e["type"] == "gravity" and self.r.random() < 0.7:
+                if self.r.random() < 0.5:      # same magnitude, different direction (a flip or a permutation of the components)
+                    g = list(e["g"])
+                    e2["g"] = [-x for x in g] if self.r.random() < 0.5 else [g[1], g[2], g[0]]
+                else:
+                    e2["g"] = vec()
+                if self.r.random() < 0.5:
+                    e2["ex"] = [int(self.r.random() < 0.3) for _ in desc]
             if e["type"] in ("mcf", "mls", "mld") and self.r.random() < 0.6:
                 e2["c"] = self.r.randint(1, 5)
                 if e["type"] == "mls":
@@ -301,6 +330,13 @@ def generate(tier, seed):
                     b = 1 if dyn else 2
                     cfgs.append(g.config([(0, "pin", 0, "g", "t"), (1, typ, rev, fcls, mcls)], dyn, b))
                     cfgs.append(g.config([(0, typ, rev, fcls, mcls), (1, "pin", r.randrange(2), "t", "g")], dyn, b))
+    # branched trees with constraints between the branches, dynamics on (the constrained bodies move relative to their ancestor)
+    for _ in range(60 if tier == "quick" else 1500):
+        n = r.choice([2, 3, 3, 4])
+        spec = [(0, r.choice(["pin", "slider", "universal", "cylinder", "planar", "ball", "gimbal"]), r.random() < 0.3, r.choice("itg"), r.choice("itg")) for _ in range(2)]
+        for i in range(3, n + 1):
+            spec.append((r.randint(1, i - 1), r.choice(["pin", "slider", "weld", "universal"]), r.random() < 0.3, r.choice("itg"), r.choice("itg")))
+        cfgs.append(g.config(spec, 1, 1, branched=True))
     # random trees
     nrand = 150 if tier == "quick" else 2500
     for _ in range(nrand):
